@@ -6,7 +6,8 @@
       registration, also when some raise; re-raises the first error iff fail_on_cleanup_errors
   X3  add_cleanup registers in the current / the named layer; the same callable with
       different arguments is registered each time
-  X4  push, pop and every 'current frame' access use the same end of the frame stack
+  X4  lookups scan every frame from the current one outward, deletion only the current one
+  X13 operation histories (push / pop / set / get / delete / contains) against a stack-of-dicts reference
   X6  a generator fixture registers its cleanup before its setup part runs
   X7  execute_steps restores the caller's text/table on every exit, whatever they were
   X9  the mode / layer context managers restore in a finally block
@@ -27,7 +28,7 @@ WHAT = {
     "X2": "every cleanup runs exactly once, in reverse registration order, whatever the others do; first error re-raised iff fail_on_cleanup_errors",
     "X12": "every run of a runner starts on a Context of its own (nothing of an earlier run - attributes, registered cleanups - is inherited)",
     "X3": "add_cleanup registers into the current or the named layer; same callable with other arguments is registered again",
-    "X4": "push, pop and current-frame accesses use the same end of the frame stack; lookups scan from that end",
+    "X4": "lookups see every frame, innermost first; deletion only the current frame (which end of the stack is 'current' is decided by X13's histories)",
     "X6": "generator fixture: cleanup registered before the setup part runs",
     "X7": "execute_steps restores the caller's text and table on every exit",
     "X9": "context mode / scoped layer managers restore in finally",
@@ -181,31 +182,6 @@ def check_add_cleanup(chk, ix):
 def check_stack_end(chk, ix):
     chk.rule("X4", WHAT["X4"])
     cc = ix.cls("behave.runner:Context")
-    ends = {}
-    for name in ("_push", "_pop", "__setattr__", "__delattr__", "add_cleanup", "_do_cleanups"):
-        f = cc.lookup(name)
-        if f is None:
-            raise AnalysisError("anchor missing: Context.%s" % name)
-        for n in ast.walk(f.node):
-            if isinstance(n, ast.Subscript) and unparse(n.value).endswith("_stack") and isinstance(n.slice, (ast.Constant, ast.UnaryOp)):
-                ends.setdefault(name, set()).add(unparse(n.slice))
-            if isinstance(n, ast.Call) and isinstance(n.func, ast.Attribute) and unparse(n.func.value).endswith("_stack"):
-                if n.func.attr == "insert" and n.args:
-                    ends.setdefault(name, set()).add(unparse(n.args[0]))
-                elif n.func.attr == "pop":
-                    ends.setdefault(name, set()).add(unparse(n.args[0]) if n.args else "-1")
-                elif n.func.attr == "append":
-                    ends.setdefault(name, set()).add("-1")
-    chk.instance("X4")
-    allends = set()
-    for v in ends.values():
-        allends |= v
-    if len(allends) == 1 and len(ends) >= 5:
-        chk.ok("X4", {"stack_end_index": sorted(allends)[0], "sites": {k: sorted(v) for k, v in ends.items()}}, nontrivial_key="one end")
-    else:
-        f = cc.lookup("_push")
-        _fail(chk, "X4", f, "ends=%s" % {k: sorted(v) for k, v in ends.items()},
-              "the frame stack is accessed at different ends: %s" % {k: sorted(v) for k, v in ends.items()})
     # lookups see every frame, innermost first; __delattr__ only the current frame (by evaluation on a three-frame stack)
     for where in ("scenario", "feature", "testrun", "nowhere", "scenario+feature"):
         for name in ("__contains__", "__getattr__", "__delattr__"):
@@ -512,3 +488,124 @@ def check_fresh_context_per_run(chk, ix):
             _fail(chk, "X12", f, "%s.%s reuses the old context" % (cname, meth),
                   "%s.%s() calls run_model() while the runner still holds the Context of the previous run: its attributes are visible to the new "
                   "run's hooks and its test-run cleanups are executed a second time" % (cname, meth), outs[0][0].path if outs else ())
+
+
+WHAT["X13"] = ("scope histories by evaluation: every history of push / pop / set / get / delete / contains on a Context made by its own "
+               "__init__ behaves like a stack of dictionaries (set always succeeds and writes the current scope; get and contains see "
+               "the innermost value; delete works only in the scope that holds the value; a popped scope takes its values along)")
+
+
+def check_scope_histories(chk, ix):
+    """X13: the Context methods evaluated on constants along every operation history up to a length bound (prefixes shared), from a
+    fresh context and from one with an outer value already shadowed; each step is compared with a stack-of-dicts reference."""
+    chk.rule("X13", WHAT["X13"])
+    cc = ix.cls("behave.runner:Context")
+    need = {}
+    for name in ("__init__", "_push", "_pop", "__setattr__", "__getattr__", "__delattr__", "__contains__"):
+        need[name] = cc.lookup(name)
+        if need[name] is None:
+            raise AnalysisError("anchor missing: Context.%s" % name)
+    depth = 5 if chk.tier == "thorough" else 4
+    noop = lambda i, s_, a, k, n: [(s_, "val", None)]      # noqa: E731
+    stubs = {"weakref.proxy": lambda i, s_, a, k, n: [(s_, "val", a[0])], "@with": "transparent", "warnings.warn": noop,
+             "traceback.extract_stack": lambda i, s_, a, k, n: [(s_, "val", (("file.py", 1, "f", "src"),))],
+             "traceback2.extract_stack": lambda i, s_, a, k, n: [(s_, "val", (("file.py", 1, "f", "src"),))]}
+    it = Interp(ix, stubs=stubs, name="Context histories")
+    it.shared_consts = True
+    it.int_sat = 1000
+    it.list_cap = 100
+    st = State()
+    st.frames = []
+    cfg = st.alloc(HObj("ConfigTok", {"verbose": False, "dry_run": False}, open=True, label="config"))
+    runner = st.alloc(HObj("RunnerTok", {"config": cfg}, open=True, label="runner"))
+    c = st.alloc(HObj(cc, {}, label="context"))
+    o0 = it.call_function(st, need["__init__"], [runner], {}, None, self_val=c)
+    if len(o0) != 1 or o0[0][1] != "val":
+        raise AnalysisError("Context.__init__ not evaluable: %r" % ([(k, v) for _, k, v in o0][:2],))
+    st0 = o0[0][0]
+    st0.pinned = (c.oid,)
+    counter = [0]
+    reported = set()
+
+    def apply(state, op):
+        """-> (state, observed) where observed is 'ok' / a value / an exception class name"""
+        s = state.fork()
+        if op == "push":
+            outs = it.call_function(s, need["_push"], ["layer"], {}, None, self_val=c)
+        elif op == "pop":
+            outs = it.call_function(s, need["_pop"], [], {}, None, self_val=c)
+        elif op.startswith("set"):
+            counter[0] += 1
+            outs = it.call_function(s, need["__setattr__"], ["x", op], {}, None, self_val=c)
+        elif op == "get":
+            outs = it.call_function(s, need["__getattr__"], ["x"], {}, None, self_val=c)
+        elif op == "del":
+            outs = it.call_function(s, need["__delattr__"], ["x"], {}, None, self_val=c)
+        else:
+            outs = it.call_function(s, need["__contains__"], ["x"], {}, None, self_val=c)
+        if len(outs) != 1:
+            raise AnalysisError("Context history step %s has %d outcomes" % (op, len(outs)))
+        s2, k, v = outs[0]
+        if k == "raise":
+            return s2, v.clsname()
+        if k != "val":
+            raise AnalysisError("Context history step %s ends with %s" % (op, k))
+        return s2, ("ok" if op in ("push", "pop", "del") or op.startswith("set") else v)
+
+    def model(stack, op):
+        """reference: list of dicts, innermost last -> (stack', expected)"""
+        stack = [dict(d) for d in stack]
+        if op == "push":
+            return stack + [{}], "ok"
+        if op == "pop":
+            return stack[:-1], "ok"
+        if op.startswith("set"):
+            stack[-1]["x"] = op
+            return stack, "ok"
+        if op == "get":
+            for d in reversed(stack):
+                if "x" in d:
+                    return stack, d["x"]
+            return stack, "AttributeError"
+        if op == "del":
+            if "x" in stack[-1]:
+                del stack[-1]["x"]
+                return stack, "ok"
+            return stack, "AttributeError"
+        return stack, any("x" in d for d in stack)
+
+    def walk(state, stack, hist, left):
+        if not left:
+            return
+        ops = ["push", "set%d" % (len(hist) + 1), "get", "del", "in"]
+        if len(stack) > 1:
+            ops.append("pop")      # the root scope is never popped by the runner
+        for op in ops:
+            s2, got = apply(state, op)
+            stack2, want = model(stack, op)
+            chk.instance("X13")
+            h2 = hist + [op]
+            if got == want:
+                chk.ok("X13", {"history": " ".join(h2), "last step": repr(got)}, nontrivial_key=(op, repr(want)))
+                walk(s2, stack2, h2, left - 1)
+            else:
+                key = (op, repr(got), repr(want), tuple(o.rstrip("0123456789") for o in h2[-3:]))
+                if key not in reported:
+                    reported.add(key)
+                    _fail(chk, "X13", need["__setattr__" if op.startswith("set") else {"get": "__getattr__", "del": "__delattr__", "in": "__contains__",
+                                                                                        "push": "_push", "pop": "_pop"}[op]],
+                          "history: %s -> %r" % (" ".join(h2), got),
+                          "on a new Context the history [%s] ends with %r, a stack of scopes gives %r" % (", ".join(h2), got, want))
+    walk(st0, [{}], [], depth)
+    # second start: an outer value that an inner scope has shadowed (the usual state inside a scenario)
+    s1 = st0
+    stack1 = [{}]
+    for op in ("set0", "push", "set00"):
+        s1, got = apply(s1, op)
+        stack1, want = model(stack1, op)
+        if got != want:
+            _fail(chk, "X13", need["__setattr__"], "history: %s -> %r" % (op, got), "set / push on a new Context gives %r" % (got,))
+            return
+    walk(s1, stack1, ["set0", "push", "set00"], depth)
+    chk.absorb(it)
+    chk.require_instances("X13", 100)
